@@ -20,7 +20,7 @@ from typing import Dict, FrozenSet, List, Optional, Set, Tuple
 
 from ..keval import KEval, Ref
 from ..poly import Poly, ZERO, ONE
-from ..forms import check_accumulate, canon_store, ref_store, short
+from ..forms import check_accumulate, canon_store, ref_store, short, expr_poly, src_poly as P_
 from .. import wire
 from ..model import norm_text, AnchorMissing, FuncInfo, Project
 from ..controls import Control
@@ -37,52 +37,6 @@ NONE = S_("None")
 
 
 # ---------------------------------------------------------------------------------------------------------------- helpers
-def expr_poly(e: ast.expr) -> Poly:
-    """numpy-level arithmetic as a polynomial over names (commutative ring; matrix products kept as ordered applications)"""
-    if isinstance(e, ast.Name):
-        return S_(e.id)
-    if isinstance(e, ast.Constant) and isinstance(e.value, (int, float)) and not isinstance(e.value, bool):
-        return Poly.const(e.value)
-    if isinstance(e, ast.UnaryOp) and isinstance(e.op, ast.USub):
-        return -expr_poly(e.operand)
-    if isinstance(e, ast.UnaryOp) and isinstance(e.op, ast.Invert):
-        return Poly.fn("not", expr_poly(e.operand))
-    if isinstance(e, ast.BinOp):
-        a, b = expr_poly(e.left), expr_poly(e.right)
-        if isinstance(e.op, ast.Add):
-            return a + b
-        if isinstance(e.op, ast.Sub):
-            return a - b
-        if isinstance(e.op, ast.Mult):
-            return a * b
-        if isinstance(e.op, ast.Div):
-            try:
-                return a / b
-            except Exception:
-                return Poly.fn("div", a, b)
-        if isinstance(e.op, ast.MatMult):
-            return Poly.fn("matmul", a, b)
-    if isinstance(e, ast.Call):
-        t = norm_text(e.func)
-        if t in ("np.dot", "numpy.dot", "np.matmul") and len(e.args) == 2:
-            return Poly.fn("matmul", expr_poly(e.args[0]), expr_poly(e.args[1]))
-        if isinstance(e.func, ast.Attribute) and e.func.attr == "dot" and len(e.args) == 1:
-            return Poly.fn("matmul", expr_poly(e.func.value), expr_poly(e.args[0]))
-    if isinstance(e, ast.Subscript):
-        idx = e.slice.elts if isinstance(e.slice, ast.Tuple) else [e.slice]
-        return Poly.fn("index", expr_poly(e.value), *[S_(norm_text(i)) if isinstance(i, ast.Slice) else expr_poly(i) for i in idx])
-    if isinstance(e, ast.Compare) and len(e.ops) == 1:
-        a, b, op = e.left, e.comparators[0], type(e.ops[0]).__name__
-        if op in ("Gt", "GtE"):  # canonical orientation
-            a, b, op = b, a, {"Gt": "Lt", "GtE": "LtE"}[op]
-        return Poly.fn("cmp:" + op, expr_poly(a), expr_poly(b))
-    return Poly.atom(("s", "<" + norm_text(e) + ">"))
-
-
-def P_(src: str) -> Poly:
-    return expr_poly(ast.parse(src, mode="eval").body)
-
-
 # ---------------------------------------------------------------------------------------------------------------- C05.solve
 def rule_solve(ctx, p: Project):
     rule = "C05.solve"
